@@ -335,10 +335,56 @@ def _vol_curve_tanks(tier, seed):
                                          worst_volume_integration_error_m3=worst))
                 if len(samples) < 2:
                     samples.append(dict(curve=cname, direction=direction, t_cross=t_cross, first_time_condition_holds=first, overshoot_m=over, one_second_of_flow_m=one_sec))
+    # min / max level of a volume-curve tank whose projected volume leaves the curve's range within one hydraulic step
+    # (large flow against a small tank): the level limits hold to two seconds of flow and the volume identity is exact
+    for cname, curve in (("ends_above_max", ((0, 0), (2, 60), (4, 200), (6, 420))), ("steep", ((0, 0), (1, 5), (3, 100), (7, 130)))):
+        for direction, rhead in (("fill", 40.0), ("drain", 0.0)):
+            for diam in ((0.5, 0.3) if tier == "quick" else (0.5, 0.3, 0.2, 0.8)):
+                lv, vv = [c[0] for c in curve], [c[1] for c in curve]
+                max_level, min_level = lv[-1] - 0.5, 1.0
+                wn = wntr.network.WaterNetworkModel()
+                wn.add_tank("T", elevation=5.0, init_level=3.0, min_level=min_level, max_level=max_level, diameter=10.0)
+                wn.add_curve("vc", "VOLUME", list(curve))
+                tank = wn.get_node("T")
+                tank.vol_curve_name = "vc"
+                wn.add_reservoir("R", base_head=rhead)
+                wn.add_junction("J", base_demand=0.0, elevation=0.0)
+                wn.add_pipe("P1", "R", "J", length=100, diameter=diam, roughness=100)
+                wn.add_pipe("P2", "J", "T", length=100, diameter=diam, roughness=100)
+                wn.options.time.duration = 6 * 3600
+                wn.options.time.hydraulic_timestep = 3600
+                wn.options.time.report_timestep = "ALL"
+                try:
+                    res = wntr.sim.WNTRSimulator(wn).run_sim()
+                except Exception as e:
+                    failures.append(dict(curve=cname, direction=direction, pipe_diameter=diam, raised=repr(e)[:160]))
+                    continue
+                evals += 1
+                distinct.add((cname, direction, diam, "limits"))
+                level = res.node["head"]["T"] - tank.elevation
+                dem = res.node["demand"]["T"]
+                ts = list(level.index)
+                worst_v, worst_l = 0.0, 0.0
+                for a, b in zip(ts[:-1], ts[1:]):
+                    dv = float(np.interp(level[b], lv, vv) - np.interp(level[a], lv, vv))
+                    worst_v = max(worst_v, abs(dv - dem[a] * (b - a)))
+                    # two seconds of the (largest) tank flow, converted to level through the local slope of the curve
+                    slope = (np.interp(level[b] + 1e-3, lv, vv) - np.interp(level[b] - 1e-3, lv, vv)) / 2e-3
+                    two_s = 2.0 * float(dem.abs().max()) / max(slope, 1e-9)      # the level stays where the crossing step left it
+                    worst_l = max(worst_l, level[b] - max_level - two_s, min_level - level[b] - two_s)
+                ok = worst_v <= 1e-6 * max(1.0, float(dem.abs().max()) * 3600) and worst_l <= 1e-9
+                if not ok:
+                    failures.append(dict(curve=cname, direction=direction, pipe_diameter=diam, levels=[round(float(x), 4) for x in level.values[:6]],
+                                         times=ts[:6], max_level=max_level, min_level=min_level, beyond_limit_by_more_than_2s_of_flow_m=worst_l,
+                                         worst_volume_integration_error_m3=worst_v))
+                if len(samples) < 3:
+                    samples.append(dict(curve=cname, direction=direction, pipe_diameter=diam, levels=[round(float(x), 4) for x in level.values[:4]], times=ts[:4]))
     return dict(evaluations=evals, distinct_nontrivial=len(distinct), failures=failures[:10], samples=samples, exhaustive=False,
-                scope="3 volume curves x {fill, drain} x threshold-crossing times inside a hydraulic step: link closed whenever the level condition holds on a reported "
+                scope="2 volume curves x {fill from / drain to a reservoir} x pipe sizes with the projected volume leaving the curve's range inside one step: "
+                      "levels within [min, max] to two seconds of flow, volume change = net inflow x elapsed time; and "
+                      "3 volume curves x {fill, drain} x threshold-crossing times inside a hydraulic step: link closed whenever the level condition holds on a reported "
                       "state, threshold met by a partial step (overshoot <= 3 s of flow), volume change through the curve = net inflow x elapsed time; "
-                      "projected volumes stay inside the curve's range")
+                      "(these with projected volumes inside the curve's range)")
 
 
 BOUNDED = [Bounded("C06.volume_curve_tanks", P + ["C05"], _vol_curve_tanks, kind="simulation of volume-curve tanks, run-time contract")]
